@@ -1,7 +1,14 @@
 package main
 
 // opaqueFloat is the result of converting a symbolic integer to a float. It
-// may be stored and passed to functions that ignore it (metrics gauges); any
-// arithmetic, comparison or conversion on it ends the path as an internal
-// error (inconclusive), never as a wrong result.
+// may be stored and passed to functions that ignore it (metrics gauges).
+// + - * / with it stay opaque, converting it to an integer type yields a fresh
+// unconstrained unknown of that type (over-approximation); any comparison or
+// other use ends the path as an internal error (inconclusive), never as a
+// wrong result.
 type opaqueFloat struct{}
+
+func isOpaqueFloat(v Value) bool {
+	_, ok := v.(opaqueFloat)
+	return ok
+}
